@@ -95,7 +95,8 @@ inductive RangeResult where
 deriving Repr
 
 /-- `Typstyle::format_source_range`. -/
-def formatRange (env : Env) (src : String) (root : ENode) (a b : Nat) : RangeResult :=
+def formatRange (cfg : Config) (wd : String → Nat) (src : String) (root : ENode) (a b : Nat) : RangeResult :=
+  let env : Env := { cfg := cfg.toP, wd := wd }
   let text := src.toList
   let len := src.utf8ByteSize
   let (s, e) := trimRange text (min a len) (min b len)
@@ -106,7 +107,7 @@ def formatRange (env : Env) (src : String) (root : ENode) (a b : Nat) : RangeRes
     let t := prepare n.toNode
     let r := knot env (2 * t.depth + 2)
     let ctx : Ctx := { mode := mode }
-    let conv : M Doc :=
+    let conv : M Twin.Doc :=
       if n.kind == .markup then r.markup ctx t .document
       else if n.kind.isExpr then r.expr ctx t
       else r.pattern ctx t
@@ -114,6 +115,6 @@ def formatRange (env : Env) (src : String) (root : ENode) (a b : Nat) : RangeRes
     | .error err => .rejected (toString (repr err))
     | .ok (d, _) =>
       let indent := countSpacesAfterLastNewline text s
-      .ok off (off + n.len) (pretty env.cfg.maxWidth (d.nst indent))
+      .ok off (off + n.len) (Pretty.pretty cfg.maxWidth ((d.fam cfg.tab).nst indent))
 
 end Typstyle
